@@ -184,9 +184,15 @@ func putClassAdToMessageWithOptions(m *Message, ad *classad.ClassAd, config *Put
 	// Write MyType and TargetType unless excluded
 	excludeTypes := (config.Options & PutClassAdNoTypes) != 0
 	if !excludeTypes {
+		// The two type names are EVALUATED, and they travel outside the secret-marker
+		// protocol (in the clear on a keyed, non-encrypting stream). Evaluate them on
+		// the ad without its private attributes, so that a type expression referring to
+		// one (MyType = ClaimId) can never carry a secret value onto the wire.
+		typeAd := ad.Redacted()
+
 		// Write MyType (empty string if not present)
 		myType := ""
-		if myTypeStr, ok := ad.EvaluateAttrString("MyType"); ok {
+		if myTypeStr, ok := typeAd.EvaluateAttrString("MyType"); ok {
 			myType = myTypeStr
 		}
 		if err := m.PutString(ctx, myType); err != nil {
@@ -195,7 +201,7 @@ func putClassAdToMessageWithOptions(m *Message, ad *classad.ClassAd, config *Put
 
 		// Write TargetType (empty string if not present)
 		targetType := ""
-		if targetTypeStr, ok := ad.EvaluateAttrString("TargetType"); ok {
+		if targetTypeStr, ok := typeAd.EvaluateAttrString("TargetType"); ok {
 			targetType = targetTypeStr
 		}
 		if err := m.PutString(ctx, targetType); err != nil {
